@@ -8,6 +8,7 @@ import Driver.OpsSort
 import Driver.OpsJoin
 import Driver.OpsLoad
 import Driver.OpsStats
+import Driver.OpsPy
 
 open Lean Df.Codec
 
@@ -33,6 +34,7 @@ def ops : List (String × (Json → R Json)) :=
    ("hdr", Df.Ops.opHdr),
    ("wrap", Df.Ops.opWrap),
    ("dumpstats", Df.Ops.opDumpStats),
+   ("pyeval", Df.Ops.opPyEval),
    ("ping", fun j => do return Json.mkObj [("ok", encPkg (← decPkg (← j.getObjVal? "pkg")))])]
 
 def handle (line : String) : String :=
